@@ -347,7 +347,10 @@ func checkC04(p *Prog, r *Report) {
 	r.Rule("R4.4", "connectionStateForDisconnection(silence, total) is the documented table: Connected up to the disconnected timeout, Disconnected beyond it, Failed beyond total (reported once as Disconnected first when the disconnected timeout is enabled and not yet reported); zero disables either; total = failed + disconnected, zero iff the failed timeout is zero; the initial checking deadline likewise (lite default).", 12)
 	csd := p.Fn("Agent.connectionStateForDisconnection")
 	if r.Anchor("Agent.connectionStateForDisconnection", csd != nil) {
-		pSil, pTot := p.paramObj(csd, 0), p.paramObj(csd, 1)
+		// the two durations by role, not by position: the silence is the parameter compared with the agent's
+		// disconnected timeout, the total time to failure is the other one
+		silIdx, totIdx := timingParamRoles(p, csd)
+		pSil, pTot := p.paramObj(csd, silIdx), p.paramObj(csd, totIdx)
 		isObj := func(e ast.Expr, o any) bool {
 			id, ok := unparen(e).(*ast.Ident)
 			return ok && p.ObjOf(id) == o
@@ -471,14 +474,18 @@ func checkC04(p *Prog, r *Report) {
 			for _, c := range p.NodeCalls(n) {
 				if p.CalleeName(c) == "ice.Agent.connectionStateForDisconnection" && len(c.Args) == 2 {
 					a0, a1 := "?", "?"
-					if c0, _, ok := p.ResolveCall(f, c.Args[0]); ok && p.CalleeName(c0) == "time.Since" {
+					silIdx, totIdx := 0, 1
+					if csdF := p.Fn("Agent.connectionStateForDisconnection"); csdF != nil {
+						silIdx, totIdx = timingParamRoles(p, csdF)
+					}
+					if c0, _, ok := p.ResolveCall(f, c.Args[silIdx]); ok && p.CalleeName(c0) == "time.Since" {
 						if c1, ok := unparen(c0.Args[0]).(*ast.CallExpr); ok && p.CalleeName(c1) == "ice.Candidate.LastReceived" {
 							if sel, ok := unparen(c1.Fun).(*ast.SelectorExpr); ok && p.IsField(sel.X, "CandidatePair.Remote") {
 								a0 = "silence(selected remote)"
 							}
 						}
 					}
-					if p.isObj(c.Args[1], totalObj) {
+					if p.isObj(c.Args[totIdx], totalObj) {
 						a1 = "total"
 					}
 					return []string{"timing(" + a0 + "," + a1 + ")"}
@@ -982,4 +989,32 @@ func checkTickDiscipline(p *Prog, r *Report) {
 		}
 	}
 
+}
+
+// timingParamRoles: which parameter of connectionStateForDisconnection is the silence (the one compared with
+// Agent.disconnectedTimeout) and which the total time to failure (the other one); (0, 1) when that cannot be told.
+func timingParamRoles(p *Prog, csd *Func) (sil, tot int) {
+	p0, p1 := p.paramObj(csd, 0), p.paramObj(csd, 1)
+	if p0 == nil || p1 == nil {
+		return 0, 1
+	}
+	with := map[types.Object]bool{}
+	walkBody(csd, func(x ast.Node) bool {
+		be, ok := x.(*ast.BinaryExpr)
+		if !ok {
+			return true
+		}
+		for _, side := range [][2]ast.Expr{{be.X, be.Y}, {be.Y, be.X}} {
+			if p.IsField(side[0], "Agent.disconnectedTimeout") {
+				if id, ok := unparen(side[1]).(*ast.Ident); ok {
+					with[p.ObjOf(id)] = true
+				}
+			}
+		}
+		return true
+	})
+	if with[p1] && !with[p0] {
+		return 1, 0
+	}
+	return 0, 1
 }
